@@ -234,7 +234,8 @@ def vars_op(pres: List[bool], yall: bool, vals: List[int], v: int, sp: int, tgt:
         return True                                   # outside the claim (not counted as a completed path)
     if F12 in KNOWN and f12_class(node, OPCODE):
         return True                                   # listed finding, probed separately
-    ok = apply_var_op(forest, OPCODE, node, name, v)
+    ok = observe_all(forest, 'vars')                  # reads before the write (a history: read, write elsewhere, read again)
+    ok = ok and apply_var_op(forest, OPCODE, node, name, v)
     ok = ok and observe_all(forest, 'vars')
     return H.done(ok)
 
